@@ -277,9 +277,10 @@ def nonzeros(
         nidx = np.random.choice(nnz, size=samples, replace=with_replacement)
     else:
         raise ValueError("Tensor doesn't have enough nonzeros to sample")
-    subs = data.subs[nidx, :]
+    # Reshape so that a tensor without nonzeros yields empty, well-shaped samples
+    subs = data.subs[nidx, :].reshape((len(nidx), data.ndims))
     vals = data.vals[nidx]
-    return subs, vals.squeeze(1)
+    return subs, vals.reshape(-1)
 
 
 def zeros(
@@ -321,6 +322,17 @@ def zeros(
         raise ValueError(
             "Cannot sample more than the total number of zeros without replacement"
         )
+
+    if num_zeros == 0:
+        # Nothing to sample from
+        if samples > 0:
+            logging.warning(
+                "Unable to get number of zero samples requested"
+                " Requested: %d but obtained: %d.",
+                samples,
+                0,
+            )
+        return np.empty((0, data.ndims), dtype=int)
 
     # Save requested number of zeros
     samples_requested = samples
@@ -413,14 +425,18 @@ def semistrat(data: ttb.sptensor, num_nonzeros: int, num_zeros: int) -> sample_t
     Subscripts, values, and weights of samples (Nonzeros then zeros).
     """
     [nonzero_subs, nonzero_vals] = nonzeros(data, num_nonzeros, with_replacement=True)
-    nonzero_weights = (data.nnz / num_nonzeros) * np.ones((num_nonzeros,))
+    nonzero_weights = np.ones((num_nonzeros,))
+    if num_nonzeros > 0:
+        nonzero_weights *= data.nnz / num_nonzeros
 
     # Uniformly sample unconfirmed zeros
     zero_subs = np.ceil(
         np.random.uniform(0, 1, (num_zeros, data.ndims)) * (np.array(data.shape) - 1),
     ).astype(int)
     zero_vals = np.zeros((num_zeros,))
-    zero_weights = (np.prod(data.shape) / num_zeros) * np.ones((num_zeros,))
+    zero_weights = np.ones((num_zeros,))
+    if num_zeros > 0:
+        zero_weights *= np.prod(data.shape) / num_zeros
 
     all_subs = np.vstack((nonzero_subs, zero_subs))
     all_vals = np.concatenate((nonzero_vals, zero_vals))
